@@ -238,7 +238,7 @@ impl ParsedValue {
         foreign_keys_paths: &ForeignKeysPaths,
     ) -> Result<(BTreeMap<String, ParsedValue>, &'a str)> {
         let mut depth = 0usize;
-        let mut index = 0usize;
+        let mut index = None;
 
         for (i, c) in s.char_indices() {
             match c {
@@ -256,13 +256,22 @@ impl ParsedValue {
                         }
                     };
                     if depth == 0 {
-                        index = i;
+                        index = Some(i);
                         break;
                     }
                 }
                 _ => {}
             }
         }
+
+        let Some(index) = index else {
+            return Err(Error::UnexpectedToken {
+                locale: locale.clone(),
+                key_path: key_path.clone(),
+                message: "malformed foreign key".to_string(),
+            }
+            .into());
+        };
 
         let (before, after) = s.split_at(index + '}'.len_utf8());
 
